@@ -302,9 +302,13 @@ func genC11(g *Gen) {
 	}
 	// very long lines (beyond 2^16 columns) followed by a line break of each style: read through, stepped back across the break one
 	// call at a time, read again - the column of a long line is reported exactly however it is kept
-	for _, width := range g.WithRandomSizes([]int{65534, 65535, 65536, 65537, 70000}, 2, 65000, 140000) {
+	widths := []int{65536, 70000}
+	if g.Thorough() {
+		widths = g.WithRandomSizes([]int{65534, 65535, 65536, 65537, 70000}, 2, 65000, 140000)
+	}
+	for _, width := range widths {
 		for _, br := range []string{"\n", "\r\n", "\r", "\n\r"} {
-			if !g.Thorough() && br != "\n" && width != 65536 {
+			if !g.Thorough() && br != "\n" && !(width == 65536 && br == "\r\n") {
 				continue
 			}
 			content := []rune(strings.Repeat("a", width) + br + "b" + br + "cd")
